@@ -20,7 +20,7 @@ if [ "$WT" != "-" ]; then
   [ -f "$WT/SEEDED/demo.diff" ] && cp "$WT/SEEDED/demo.diff" "$HERE/seeded/$ID/demo.diff"
   [ -f "$WT/SEEDED/NOTES.md" ] && cp "$WT/SEEDED/NOTES.md" "$HERE/seeded/$ID/NOTES.md"
 fi
-PATCH="$HERE/seeded/$ID/patch.diff"
+PATCH="${PATCH_FILE:-$HERE/seeded/$ID/patch.diff}"
 mkdir -p $ISO
 # one sandbox, one user at a time
 exec 9>$ISO/lock
@@ -40,7 +40,7 @@ echo "## checks $ID: $*"
 (cd $ISO/verif/sim && CARGO_NET_OFFLINE=true cargo build --release --offline >$ISO/build.log 2>&1) || { echo "HARNESS-ERROR: build failed"; tail -20 $ISO/build.log; git -C $ISO/repo checkout -- .; exit 2; }
 mkdir -p $ISO/verif/evidence $ISO/verif/replays
 for p in "$@"; do
-  VERIF_DIR=$ISO/verif $ISO/target/release/perpsim check $p --tier quick > $ISO/seeded-$ID-$p.log 2>&1; rc=$?
+  VERIF_DIR=$ISO/verif $ISO/target/release/perpsim check $p --tier quick $CHECK_ARGS > $ISO/seeded-$ID-$p.log 2>&1; rc=$?
   echo "== $p rc=$rc"; grep -E "signature=|HARNESS" $ISO/seeded-$ID-$p.log | sort -u | head -8
 done
 git -C $ISO/repo checkout -- .
